@@ -911,6 +911,7 @@ func runC11(c *Ctx) {
 	// fail-only-when-safe rules of C02 are re-derived here
 	c02failers(c, m)
 	c11offsetsFlag(c, m)
+	c11purgeMarks(c, m)
 }
 
 // c11offsetsFlag: once the group's offsets are part of the transaction -
